@@ -1276,6 +1276,23 @@ WITNESSES = [
     ("x0 = maximum(p0, 3*x0[-1]) + e0", {"x0": (1.0, 0.0), "p0": 1.0}),
     ("x0 = 0.5*maximum(x0[-1], x0[+1]*1.5) + e0", {"x0": (1.0, 0.0), "p0": 1.0}),
     ("x0 = p0*sqrt(x0[-1]) + e0", {"x0": (2.25, 0.0), "p0": 0.5}),
+    # every name offered in equations, applied to a model variable: differentiated correctly or rejected
+    ("x0 = 0.5*log(x0[-1]) + e0", {"x0": (1.5, 0.0), "p0": 0.5}),
+    ("x0 = 0.25*exp(x0[-1]) + e0", {"x0": (1.5, 0.0), "p0": 0.5}),
+    ("x0 = logistic(x0[-1]) + e0", {"x0": (1.5, 0.0), "p0": 0.5}),
+    ("x0 = 0.5*abs(x0[-1] - 3) + e0", {"x0": (1.5, 0.0), "p0": 0.5}),
+    ("x0 = normal_cdf(x0[-1]) + e0", {"x0": (0.75, 0.0), "p0": 0.5}),
+    ("x0 = normal_pdf(x0[-1]) + e0", {"x0": (0.75, 0.0), "p0": 0.5}),
+    ("x0 = 0.5*maximum(x0[-1], 2) + 0.25*maximum(x0[+1], 1) + e0", {"x0": (1.5, 0.0), "p0": 0.5}),
+    ("x0 = 0.5*minimum(x0[-1], 2) + e0", {"x0": (1.5, 0.0), "p0": 0.5}),
+    ("x0 = 0.5*minimum(x0[-1], 1) + e0", {"x0": (1.5, 0.0), "p0": 0.5}),
+    ("x0 = 0.5*minimum(x0[-1], 3*p0) + 0.25*minimum(x0[+1], p0) + e0", {"x0": (1.25, 0.0), "p0": 0.5}),
+    ("x0 = 0.5*minimum(2, x0[-1]) + e0", {"x0": (1.5, 0.0), "p0": 0.5}),
+    ("x0 = 0.5*maximum(2, x0[-1]) + e0", {"x0": (1.5, 0.0), "p0": 0.5}),
+    ("x0 = 0.25*2^x0[-1] + e0", {"x0": (1.5, 0.0), "p0": 0.5}),
+    ("x0 = 0.25*p0^x0[-1] + 0.125*x0[+1]^p0 + e0", {"x0": (1.5, 0.0), "p0": 0.5}),
+    ("x0 = 0.25*x0[-1]^2 + 0.125*(x0[+1] - 3)^2 + 0.5*(x0[-1] - 2)^(-1) + e0", {"x0": (1.5, 0.0), "p0": 0.5}),
+    ("x0 = 0.5/x0[-1] + x0[+1]/p0 + p0/(1 + x0[-1]) - (1 - x0[-1]) + e0", {"x0": (1.5, 0.0), "p0": 0.5}),
 ]
 
 
